@@ -25,7 +25,9 @@ RULE = (
     "of a PassManager. Per case: the recorded invocations (registration, original block, offset, function) against "
     "the specification's list, in order; every marker exactly once in the output and the output bytes against the "
     "listing specification with one insertion per invocation"
-    "; jumps whose CFG edge carries no label"
+    "; jumps whose CFG edge carries no label; a first block that does not start its byte interval (1-5 uncovered bytes in front of it); "
+    "register_insert_function in the same context (the added function's code is no block any scope designates: no invocation may name it; "
+    "the byte-level placement of the markers is not judged in those cases)"
 )
 ASSUMPTIONS = [
     "ANYWHERE resolves to the first potential offset (offset 0): the code documents 'always insert at the first potential offset' until bubbling exists; the property's 'on an instruction boundary not after the terminator' is checked on that choice",
@@ -180,11 +182,22 @@ def run_impl(case, regs, two_passes):
             ctx.insert_at(B.blocks[r["block"]], r["off"], p)
 
     err = None
+    newfuncs = sorted(case.get("insert_functions") or [], key=lambda f: f["when"])
+
+    def add_functions(ctx, lo, hi):
+        # register_insert_function in the same context: the new function's code is no block of the module the scopes
+        # were registered for
+        for f in newfuncs:
+            if lo <= f["when"] < hi:
+                ctx.register_insert_function(f["name"], emodify.make_patch(f["asm"]))
+
     try:
         if not two_passes:
             ctx = RewritingContext(B.m, funcs)
             for ri, r in enumerate(regs):
+                add_functions(ctx, ri, ri + 1)
                 register(ctx, ri, r)
+            add_functions(ctx, len(regs), 1 << 30)
             ctx.apply()
         else:
             half = (len(regs) + 1) // 2
@@ -193,7 +206,10 @@ def run_impl(case, regs, two_passes):
                 class Q(Pass):
                     def begin_module(self, module, functions, rewriting_ctx):
                         for ri in range(lo, hi):
+                            add_functions(rewriting_ctx, ri, ri + 1)
                             register(rewriting_ctx, ri, regs[ri])
+                        if hi == len(regs):
+                            add_functions(rewriting_ctx, len(regs), 1 << 30)
 
                 return Q()
 
@@ -207,6 +223,10 @@ def run_impl(case, regs, two_passes):
         tb = traceback.extract_tb(e.__traceback__)
         err = "%s: %s @%s" % (type(e).__name__, str(e)[:100], tb[-1].name)
     after = irdump.dump_ir(B.m, idm)
+    if case.get("lead"):
+        # bytes in front of the first block that no block covers: not part of the listing
+        before = emodify.strip_lead(before, case["lead"])
+        after = emodify.strip_lead(after, case["lead"])
     # registrations as the specification sees them (block ids of the dump)
     sregs = []
     for r in regs:
@@ -287,6 +307,9 @@ def flush(ctx, pending):
             n = allbytes.count(bytes([0xBD]) + v["marker"].to_bytes(4, "little"))
             if n != 1:
                 ctx.violation("C07:marker-count", "the patch of invocation %s appears %d times in the output" % ((v["reg"], v["block"], v["off"]), n), payload)
+        if payload["case"].get("insert_functions"):
+            ctx.count("marker-place-skipped:inserted-function")
+            continue
         second.append((payload, {"op": "listing_check", "before": before, "after": after, "edits": edits, "nop": [0x90]}))
     if second:
         ans2 = ask_driver([s[1] for s in second])
@@ -317,6 +340,13 @@ def run(ctx):
             code = [i for i, d in enumerate(case["text"]) if d["kind"] == "code"]
             case["entry"] = ctx.rng.choice(code)
         regs = gen_regs(ctx.rng, case)
+        if ctx.rng.random() < 0.15:
+            case["lead"] = ctx.rng.randint(1, 5)        # the first block does not start its byte interval
+            for d in case["text"]:
+                d.pop("align", None)                    # (alignments that hold before the rewrite only)
+        if ctx.rng.random() < 0.12:
+            case["insert_functions"] = [{"name": "added_%d" % j, "asm": ctx.rng.choice(["nop\nret", "ret", "movl $1, %eax\nret"]),
+                                         "when": ctx.rng.randint(0, len(regs))} for j in range(ctx.rng.randint(1, 2))]
         check_case(ctx, case, regs, ctx.rng.random() < 0.3, pending)
         if len(pending) >= 300:
             flush(ctx, pending)
